@@ -267,6 +267,25 @@ def check_program(src, chain, only_occ=None, layout=None):
                      {'occurrence': list(key), 'differing_files': diff,
                       'got': {k: restored.get(k, b'<missing>').decode('utf-8', 'replace')
                               for k in diff}})
+                continue
+            # third step of the history on the SAME paths (text read from disk): the files are
+            # byte-identical to the start again, so the same request must give the same result
+            try:
+                s3 = jedi.Script(path=os.path.join(run1, rel), environment=env, project=proj2)
+                out['evals'] += 1
+                again = s3.rename(l, c, new_name=FRESH)
+                changed3 = {os.path.relpath(str(p), run1): cf.get_new_code()
+                            for p, cf in again.get_changed_files().items()}
+                renames3 = sorted((os.path.relpath(str(a), run1), os.path.relpath(str(b), run1))
+                                  for a, b in again.get_renames())
+            except Exception as e:
+                fail(canon.exc_site(e) + '/rename-again', oid,
+                     {'occurrence': list(key), 'call': 'rename again', 'tb': canon.short_tb(e)})
+                continue
+            if changed3 != changed or renames3 != sorted(renames):
+                fail('rename-again-differs@rename', oid,
+                     {'occurrence': list(key), 'first': changed, 'again': changed3,
+                      'renames_first': sorted(renames), 'renames_again': renames3})
         return out
     finally:
         shutil.rmtree(base, ignore_errors=True)
